@@ -184,6 +184,7 @@ class Interp:
         self.loop_bound = 4096
         self.stubs = {}               # (module, qualname) -> callable(interp, fv, args, kwargs)
         self.loop_cuts = {}           # function qualname -> iterations after which the path is cut (induction)
+        self.loop_specs = {}          # (function qualname, loop ordinal) -> LoopSpec (inductive invariant)
         self.call_trace = []
 
     # ------------------------------------------------------------------ lifting real objects
@@ -199,14 +200,22 @@ class Interp:
             return v
         if isinstance(v, bytes):
             return SBytes(list(v), False)
-        if isinstance(v, bytearray):
-            return SBytes(list(v), True)
+        if isinstance(v, (bytearray, list, dict)):
+            # a mutable real object (module constant, default argument) is ONE object: lift it once per path so
+            # that mutations through one reference are seen through every other (e.g. a mutable default argument)
+            memo = self.__dict__.setdefault("_lift_memo", {})
+            if id(v) in memo:
+                return memo[id(v)][1]
+            if isinstance(v, bytearray):
+                r = SBytes(list(v), True)
+            elif isinstance(v, list):
+                r = SList([self.lift(x) for x in v])
+            else:
+                r = SDict({k: self.lift(x) for k, x in v.items()})
+            memo[id(v)] = (v, r)
+            return r
         if isinstance(v, tuple):
             return tuple(self.lift(x) for x in v)
-        if isinstance(v, (list,)):
-            return SList([self.lift(x) for x in v])
-        if isinstance(v, dict):
-            return SDict({k: self.lift(x) for k, x in v.items()})
         if isinstance(v, (frozenset, set)):
             return frozenset(v)
         if isinstance(v, types.ModuleType):
@@ -642,8 +651,9 @@ class Interp:
             fr.locals[t.id] = self.binary(op, cur, self.eval(node.value, fr), inplace=True)
         elif isinstance(t, ast.Attribute):
             o = self.eval(t.value, fr)
-            cur = self.getattr(o, t.attr)
-            self.setattr(o, t.attr, self.binary(op, cur, self.eval(node.value, fr), inplace=True))
+            an = self.mangle(t.attr, fr)
+            cur = self.getattr(o, an)
+            self.setattr(o, an, self.binary(op, cur, self.eval(node.value, fr), inplace=True))
         elif isinstance(t, ast.Subscript):
             o = self.eval(t.value, fr)
             k = self.eval_slice(t.slice, fr)
@@ -677,6 +687,9 @@ class Interp:
 
     def s_While(self, node, fr):
         n = 0
+        spec = self.loop_specs.get((fr.fd.qualname, self._loop_ordinal(node, fr)))
+        if spec is not None and self.ctx.mode == "sym":
+            return self.while_with_invariant(node, fr, spec)
         cut = self.loop_cuts.get(fr.fd.qualname)
         while True:
             if not truth(self.eval(node.test, fr)):
@@ -696,6 +709,40 @@ class Interp:
                 return
             except ContinueEx:
                 continue
+
+    def _loop_ordinal(self, node, fr):
+        loops = [n for n in ast.walk(fr.fd.node) if isinstance(n, (ast.While, ast.For))]
+        loops.sort(key=lambda n: (n.lineno, n.col_offset))
+        return loops.index(node)
+
+    def while_with_invariant(self, node, fr, spec):
+        """Cut the loop by its inductive invariant (DESIGN §2.7):
+        loop-init  : invariant holds on entry;
+        loop-step  : from an arbitrary state satisfying invariant and guard, one iteration re-establishes it and
+                     decreases the variant (then the path ends);
+        exit       : execution continues from an arbitrary state satisfying invariant and not guard."""
+        ctx = self.ctx
+        tag = "%s#%d" % (fr.fd.qualname, self._loop_ordinal(node, fr))
+        ctx.side_obligations.append(("loop-init:" + tag, truth_val(spec.inv(self, fr)), list(ctx.pc)))
+        spec.havoc(self, fr)
+        ctx.assume(truth_val(spec.inv(self, fr)))
+        if truth(self.eval(node.test, fr)):
+            v0 = spec.variant(self, fr) if spec.variant else None
+            try:
+                self.exec_block(node.body, fr)
+            except ContinueEx:
+                pass
+            except BreakEx:
+                return
+            ctx.side_obligations.append(("loop-step:" + tag, truth_val(spec.inv(self, fr)), list(ctx.pc)))
+            if v0 is not None:
+                v1 = spec.variant(self, fr)
+                ctx.side_obligations.append(("loop-variant:" + tag,
+                                             And(compare("<", v1, v0), compare(">=", v0, 0)), list(ctx.pc)))
+            ctx.notes.append("loop %s: one symbolic iteration checked against its invariant" % tag)
+            raise PathAbort()
+        if node.orelse:
+            self.exec_block(node.orelse, fr)
 
     def iterate(self, it):
         """engine iterable -> python list of items (concrete length only)."""
@@ -862,7 +909,7 @@ class Interp:
         if isinstance(t, ast.Name):
             fr.locals[t.id] = v
         elif isinstance(t, ast.Attribute):
-            self.setattr(self.eval(t.value, fr), t.attr, v)
+            self.setattr(self.eval(t.value, fr), self.mangle(t.attr, fr), v)
         elif isinstance(t, ast.Subscript):
             o = self.eval(t.value, fr)
             self.setitem(o, self.eval_slice(t.slice, fr), v)
@@ -912,8 +959,19 @@ class Interp:
     def e_Name(self, node, fr):
         return self.load_name(node.id, fr)
 
+    def mangle(self, name, fr):
+        """private name mangling of `__x` inside a class body"""
+        if name.startswith("__") and not name.endswith("__"):
+            f = fr
+            while f is not None and f.fd.cls_name is None and f.closure is not None:
+                f = f.closure
+            c = f.fd.cls_name if f is not None else None
+            if c:
+                return "_" + c.lstrip("_") + name
+        return name
+
     def e_Attribute(self, node, fr):
-        return self.getattr(self.eval(node.value, fr), node.attr)
+        return self.getattr(self.eval(node.value, fr), self.mangle(node.attr, fr))
 
     def e_Tuple(self, node, fr):
         out = []
@@ -1657,6 +1715,16 @@ class Interp:
                 o.sym[i] = (kk, v)
                 return
         o.sym.append((k, v))
+
+
+class LoopSpec:
+    """inductive invariant of a loop: inv(interp, frame) -> bool|SBool, havoc(interp, frame) replaces everything the
+    loop modifies by fresh values, variant(interp, frame) -> int expression that must decrease and stay >= 0"""
+
+    def __init__(self, inv, havoc, variant=None):
+        self.inv = inv
+        self.havoc = havoc
+        self.variant = variant
 
 
 class _IterVal:
